@@ -3,7 +3,7 @@ pattern (basename, or full path for patterns starting with '/')."""
 import fnmatch
 import os
 
-from .. import gen, putcheck, run, snap, spec, trashgen, trashworld, world
+from .. import gen, putcheck, run, sched, snap, spec, trashgen, trashworld, world
 
 ID = 'C12'
 
@@ -88,7 +88,86 @@ def make_pattern(rng, names, fulls):
     return spec.glob_escape(''.join(cs)), 'case-swapped'
 
 
+def gen_race_case(rng, index, tier):
+    """trash-rm PATTERN racing with a trash-put of a NON-matching fresh file
+    into the same volume trash dir"""
+    L, trashes, entries = trashworld.make(
+        rng, index, n_entries=rng.randint(1, 4), volumes=[], home_own=False,
+        xdg='unset', names=['old-a', 'old-b', 'keep-c', 'old-d'],
+        dates=['2005-05-05T05:05:05'], kinds=['file', 'tree', 'link_dangling'],
+        trash_volumes_env=False)
+    L.add({'p': L.home + '/fresh', 't': 'd'})
+    L.add(gen.entry_nodes(rng, L.home + '/fresh/fresh.txt', 'file', 'fresh%d' % index))
+    case = L.desc()
+    case['kind'] = 'race'
+    case['entries'] = entries
+    case['pattern'] = 'old-*'
+    case['trashes'] = [t['rel'] for t in trashes]
+    case['fresh'] = L.home + '/fresh/fresh.txt'
+    case['seed'] = rng.getrandbits(30)
+    case['max_sched'] = 50 if tier == 'quick' else 300
+    return case
+
+
+def run_race(case):
+    import random
+    out = {'violations': [], 'obs': {}, 'features': ['race']}
+    obs = out['obs']
+    ex = sched.Explorer(1)
+    rng = random.Random(case['seed'])
+    n = 0
+    seen = set()
+    while n < case['max_sched']:
+        pol = ex if not ex.finished else sched.RandomPolicy(rng, 0.5)
+        if pol is ex:
+            ex.start_run()
+        with world.World(case) as w:
+            s0 = w.snapshot()
+            ht = spec.home_trash(w.env())
+            actors = [
+                {'cmd': 'rm', 'args': [case['pattern']], 'cwd': w.cwd()},
+                {'cmd': 'put', 'args': ['--', w.abs(case['fresh'])], 'cwd': w.cwd()}]
+            results, trace, err = sched.run_schedule(w, actors, w.R, pol.choose)
+            s1 = w.snapshot()
+        n += 1
+        obs['race_schedules'] = obs.get('race_schedules', 0) + 1
+        if err:
+            out['verdict'] = 'inconclusive'
+            out['why'] = err
+            return out
+        key = tuple(a for a, _ in trace)
+        if key not in seen:
+            seen.add(key)
+            obs['race_interleavings'] = obs.get('race_interleavings', 0) + 1
+        A = putcheck.analyze(s0, s1, [case['fresh']])
+        o = A.outcomes[0]
+        bad = None
+        if results[1].exit != 0 or o['state'] != 'TRASHED':
+            bad = 'fresh-entry-not-trashed-whole/%s' % o['state']
+        for e in case['entries']:
+            st = trashworld.entry_state(s0, s1, e)
+            exp = spec.glob_match(os.path.basename(e['loc']), case['pattern'])
+            if (exp and st != 'gone') or (not exp and st != 'intact'):
+                bad = bad or 'entry-%s-though-%s' % (st, 'matching' if exp else 'not matching')
+        if bad and len(out['violations']) < 2:
+            out['violations'].append({
+                'mechanism': 'race-with-put:' + bad,
+                'detail': {'trace': ['%d:%s' % t for t in trace][:60],
+                           'exits': [r.exit for r in results],
+                           'stderr': [r.errtext()[-200:] for r in results]}})
+        if pol is ex and not ex.next():
+            obs['race_exhaustive_bound1'] = 1
+        if out['violations']:
+            break
+    out['nontrivial'] = True
+    out['sample_obs'] = {'schedules': n, 'distinct': len(seen)}
+    out['verdict'] = 'violation' if out['violations'] else 'ok'
+    return out
+
+
 def gen_case(rng, index, tier):
+    if index % 200 == 11:
+        return gen_race_case(rng, index, tier)
     n = rng.randint(1, 15)
     names = [rng.choice(BASE_NAMES) if rng.random() < 0.8 else
              gen.hostile_name(rng, allow_bad_utf8=False, maxbytes=20)
@@ -106,6 +185,8 @@ def gen_case(rng, index, tier):
 
 
 def run_case(case):
+    if case.get('kind') == 'race':
+        return run_race(case)
     out = {'violations': [], 'obs': {}, 'features': []}
     obs = out['obs']
     with world.World(case) as w:
